@@ -1151,7 +1151,9 @@ class System:
             # update subsystem current/power/loss/efficiency/energy
             for d in range(len(sources)):
                 src = list(sources.keys())[d]
-                idx = df[df.Component == "Subsystem {}".format(src)].index[0]
+                idx = df[
+                    (df.Component == "Subsystem {}".format(src)) & (df.Type == "")
+                ].index[0]
                 curr = df[(df.Domain == src) & (df.Type == "SOURCE")][
                     "Iout (A)"
                 ].values[0]
